@@ -74,6 +74,9 @@ func opAggregate(r *rand.Rand, n int, tier string) {
 			size = 300 + r.Intn(700)
 		}
 		k := 1 + r.Intn(3)
+		if r.Intn(60) == 0 {
+			size = 0 // an empty snapshot (all goroutines filtered out by the caller)
+		}
 		gs := genSnapshot(r, size, k, r.Intn(2) == 0)
 		if r.Intn(25) == 0 && size > 1 {
 			// duplicate ids: only the multiset laws apply
